@@ -852,6 +852,36 @@ DETAIL["c03_r4_limits"] = lambda k, kind, vi, n: {"source": LIM_SRC[k], LIM_KIND
                                                    "lax/warn/strict (status, output or error, warnings)": [lim_case(k, kind, vi, n)[m] for m in (Mode.LAX, Mode.WARN, Mode.STRICT)]}
 CONDITIONS.append({"fn": "c03_r4_limits", "quick": 90, "thorough": 200, "sel_only": True})
 
+# ---- the shared corpus: a render that succeeds in STRICT mode gives the same output, silently, in LAX and WARN ----
+from harness import corpus as _corpus  # noqa: E402
+
+_CENVS = {m: _corpus.make_env(tolerance=m) for m in (Mode.STRICT, Mode.WARN, Mode.LAX)}
+
+
+def _corpus_check(w2, w1, leaf, d):
+    ts = {m: _corpus.template(e, w2, w1, leaf) for m, e in _CENVS.items()}
+    if ts[Mode.STRICT] is None:
+        return None
+    strict = _corpus.outcome(lambda: ts[Mode.STRICT].render(**_corpus.data(d)))
+    res = {}
+    for m in (Mode.LAX, Mode.WARN):
+        if ts[m] is None:
+            return {"parses in STRICT but not in": str(m)}
+        r, seen = watch(lambda: ts[m].render(**_corpus.data(d)))
+        res[m] = (r[0], r[1] if r[0] == "ok" else type(r[1]).__name__, len(seen))
+    if res[Mode.LAX][0] != "ok" or res[Mode.WARN][0] != "ok" or res[Mode.LAX][1] != res[Mode.WARN][1] or res[Mode.LAX][2] != 0:
+        return {"strict": strict, "lax": res[Mode.LAX], "warn": res[Mode.WARN]}
+    if strict[0] == "ok" and (strict[1] != res[Mode.LAX][1] or res[Mode.WARN][2] != 0):
+        return {"strict": strict, "lax": res[Mode.LAX], "warn": res[Mode.WARN]}
+    if strict[0] == "liquid" and res[Mode.WARN][2] == 0:
+        return {"strict": strict, "warn is silent": res[Mode.WARN]}
+    return None
+
+
+c03_corpus, _det = _corpus.mk_condition("c03_corpus", _corpus_check)
+DETAIL["c03_corpus"] = _det
+CONDITIONS.append({"fn": "c03_corpus", "quick": 90, "thorough": 200, "sel_only": True, "bounds": _corpus.BOUNDS})
+
 ASSUMPTIONS = [
     "R1: template sources are concrete valid skeletons (SKEL, SKEL_X); x, y : None | bool | int (-1..9) | str (<= 2 chars over 'a1 '), list length 0..3 are symbolic; the three environments differ only in `tolerance`",
     "R1 asserts for LAX/WARN only what the statement says: no LiquidError escapes; other exception classes are C02's subject and only have to agree between LAX and WARN",
